@@ -49,6 +49,12 @@ pub enum Entry15
     {
         dir: usize,
     },
+    /// a `Breadlog.lock` of some other (vendored / nested) project in a directory below the source dir,
+    /// with an ordinary source file next to it
+    StrayLock
+    {
+        dir: usize,
+    },
 }
 
 #[derive(Clone, Debug, PartialEq, Eq, Hash, Serialize, Deserialize)]
@@ -80,6 +86,7 @@ pub fn strategy() -> BoxedStrategy<C15Case>
         1 => (0..DIRS.len()).prop_map(|dir| Entry15::LinkToDirInside { dir }),
         1 => (0..DIRS.len()).prop_map(|dir| Entry15::LinkToDirOutside { dir }),
         1 => (0..DIRS.len()).prop_map(|dir| Entry15::HardLinked { dir }),
+        1 => (0..DIRS.len()).prop_map(|dir| Entry15::StrayLock { dir }),
     ];
     let exts = prop_oneof![
         3 => Just(None),
@@ -237,6 +244,21 @@ pub fn check(case: &C15Case) -> CaseOutcome
                     {
                         expected.insert(rel.clone());
                     }
+                }
+            },
+            Entry15::StrayLock { dir } =>
+            {
+                let d = DIRS[*dir % DIRS.len()];
+                let base = if d.is_empty() { src_rel.to_string() } else { format!("{}/{}", src_rel, d) };
+                let lock = format!("{}/Breadlog.lock", base);
+                if put(&lock, &mut all_files)
+                {
+                    std::fs::write(proj.join(&lock), format!("{}next_reference_id: 4711\n", crate::gen::LOCK_HEADER)).unwrap();
+                }
+                let rel = format!("{}/next_to_lock.rs", base);
+                if put(&rel, &mut all_files) && in_scope_name("next_to_lock.rs", &exts)
+                {
+                    expected.insert(rel.clone());
                 }
             },
             Entry15::LinkToDirInside { dir } | Entry15::LinkToDirOutside { dir } =>
@@ -482,7 +504,7 @@ pub fn run(env: &Env, rec: &Recorder) -> (String, Vec<&'static str>)
 {
     pbt(env, rec, "layouts", env.cases(4000, 60_000), &strategy, &check);
     (
-        "directory layouts: up to 13 entries over 8 directory shapes (nesting <= 4, a directory named x.rs, names with spaces) x 20 file names (look-alike extensions .RS .rsx .rs.bak .rs~ .Rs 'rs' none, hidden, unicode, double extensions), symlinks to files and directories inside and outside the source dir, in-scope files with a second hard link outside the source dir, canary files outside the source dir and in a decoy src/ under the invocation directory; extension lists omitted/[rs]/[rs,rsx]/[RS]/[txt]/[rsx]/[rs, empty string]/[empty string]; one edit run in eight with TMPDIR really on another filesystem (then only 'nothing out of scope changes' is judged); source_dir as src, ./src, sub/../src, src/, ./src/., absolute, or `proj/src` below a configuration directory itself named `proj` (with a decoy src/ that a cwd-relative resolution would hit); configuration file in the project root or in a sub-directory (source_dir then contains `..`, with a look-alike src/ next to the configuration); invocation from the project dir, its parent, an unrelated dir; config path relative or absolute; both modes, both styles. Every regular file holds one statement lacking a reference. Oracle: independent scope rule; edit modifies exactly the in-scope set (one insertion each), everything else byte-identical, symlinks unchanged, Breadlog.lock only next to the config; --check scans and reports exactly the in-scope set. Non-trivial = distinct layout with a look-alike or symlink and an in-scope file at depth >= 2, or invoked from another directory".to_string(),
+        "directory layouts: up to 13 entries over 8 directory shapes (nesting <= 4, a directory named x.rs, names with spaces) x 20 file names (look-alike extensions .RS .rsx .rs.bak .rs~ .Rs 'rs' none, hidden, unicode, double extensions), symlinks to files and directories inside and outside the source dir, in-scope files with a second hard link outside the source dir, a foreign Breadlog.lock in a directory below the source dir, canary files outside the source dir and in a decoy src/ under the invocation directory; extension lists omitted/[rs]/[rs,rsx]/[RS]/[txt]/[rsx]/[rs, empty string]/[empty string]; one edit run in eight with TMPDIR really on another filesystem (then only 'nothing out of scope changes' is judged); source_dir as src, ./src, sub/../src, src/, ./src/., absolute, or `proj/src` below a configuration directory itself named `proj` (with a decoy src/ that a cwd-relative resolution would hit); configuration file in the project root or in a sub-directory (source_dir then contains `..`, with a look-alike src/ next to the configuration); invocation from the project dir, its parent, an unrelated dir; config path relative or absolute; both modes, both styles. Every regular file holds one statement lacking a reference. Oracle: independent scope rule; edit modifies exactly the in-scope set (one insertion each), everything else byte-identical, symlinks unchanged, Breadlog.lock only next to the config; --check scans and reports exactly the in-scope set. Non-trivial = distinct layout with a look-alike or symlink and an in-scope file at depth >= 2, or invoked from another directory".to_string(),
         vec!["the source dir itself being a symlink, non-UTF-8 file names and a file literally named .rs are not generated (the statement does not settle them)"],
     )
 }
